@@ -80,6 +80,6 @@ example : Spec.WellFormedLayout 200 100 5 [(100, 130), (132, 150), (150, 197)] :
   Proofs.Layout.example_wellformed
 
 example : layoutCheck true 200 20 100 5 [(132, 150), (100, 130), (150, 197)] 48 47 =
-    .ok ⟨[⟨0, 130, 132⟩, ⟨1, 197, 200⟩], 5, 200⟩ := by decide
+    .ok ⟨[⟨0, 130, 132⟩, ⟨1, 197, 200⟩], 5, 200⟩ := by rfl
 
 end SqliteDissect.Properties.C06
